@@ -83,9 +83,12 @@ fn make_layer(rng: &mut Rng, street: Street, n: usize, k: usize, ties: bool, nea
     let tight = ties && inner != Street::Rive && k <= 8;
     if tight {
         for i in (0..k.saturating_sub(1)).step_by(2) {
-            let (_, parts) = points[rng.below(n as u64) as usize].verif_parts();
+            // a pair of centroids for one point: a copy of the point, and a histogram concentrated on the point's middle bucket
+            let j = rng.below(n as u64) as usize;
+            let (_, parts) = points[j].verif_parts();
             if let Some((key, _)) = parts.get(parts.len() / 2) {
                 kmeans[i] = Histogram::from(vec![Abstraction::from(*key); 30]);
+                kmeans[i + 1] = points[j].clone();
             }
         }
     }
